@@ -57,15 +57,15 @@ theorem emit_first (root cur : Nat) : ∀ (e : Expr F) (s : LState F), Al s → 
   | .cond onTrue c t, s, hal, hw => by
     simp only [wfE, Bool.and_eq_true] at hw
     simp only [emit]
-    exact first_app (emit_first root cur c s hal hw.1.1) (condTail_dep (k := s.dep) (emit_dep root cur c s hw.1.1).2).1.app
+    exact first_app (emit_first root cur c s hal hw.1) (condTail_dep (k := s.dep) (emit_dep root cur c s hw.1).2).1.app
   | .and l r, s, hal, hw => by
     simp only [wfE, Bool.and_eq_true] at hw
     simp only [emit]
-    exact first_app (emit_first root cur l s hal hw.1.1) (logicalTail_dep (.inl rfl)).1.app
+    exact first_app (emit_first root cur l s hal hw.1) (logicalTail_dep (.inl rfl)).1.app
   | .or l r, s, hal, hw => by
     simp only [wfE, Bool.and_eq_true] at hw
     simp only [emit]
-    exact first_app (emit_first root cur l s hal hw.1.1) (logicalTail_dep (.inr rfl)).1.app
+    exact first_app (emit_first root cur l s hal hw.1) (logicalTail_dep (.inr rfl)).1.app
   | .seq a b, s, hal, hw => by
     simp only [wfE, Bool.and_eq_true] at hw
     simp only [emit]
@@ -104,7 +104,7 @@ theorem emit_first (root cur : Nat) : ∀ (e : Expr F) (s : LState F), Al s → 
       (.push _ (jumpIf onTrue) (some (emit root cur c s).jumps.size))).trans (emitArms_dep root cur rest _ hw.1.2).1.app
     have a2 := (emit_dep root cur e (emitArms root cur rest
       (((emit root cur c s).pushJump 0).push (jumpIf onTrue) (some (emit root cur c s).jumps.size))).1 hw.2).1.app
-    exact first_app (first_app (first_app (emit_first root cur c s hal hw.1.1.1.1) a1) a2) finishChain_dep.1.app
+    exact first_app (first_app (first_app (emit_first root cur c s hal hw.1.1.1) a1) a2) finishChain_dep.1.app
 end
 
 /-- the terminators of the pending root `r` (which starts at depth `dr`, so ends at `dr + 1`) jump to a join
@@ -122,7 +122,7 @@ join of the right depth; if it is a piece of the current body, that piece is wel
 positions only (and then starts at depth 0) and its containing body starts at depth 0; a nested body starts at 0 -/
 def TermOK (sF : LState F) (r : Root F) (dr : Nat) : Prop :=
   JoinOK sF r dr ∧
-  (∀ b, r.kind = .code b → (wfE b = true ∧ enFree b = true) ∧ (noR b = true ∨ (tailR b = true ∧ dr = 0)) ∧ ContOK sF r.containing ∧
+  (∀ b, r.kind = .code b → wfE b = true ∧ (noR b = true ∨ (tailR b = true ∧ dr = 0)) ∧ ContOK sF r.containing ∧
     ((∃ j, r.term = [(.jumpTo, some j)]) ∨ (∃ j, r.term = [(.tis, none), (.jumpTo, some j)]))) ∧
   (∀ id, r.kind = .ref id → dr = 0)
 
